@@ -18,7 +18,7 @@ RULE = (
     "dds.keep, dds.load, re-keep with another value, re-configuration with another commit type) for every documented "
     "commit type spelling (full / links_only / none, any letter case, and the default), value types str / bytes / None / "
     "picklable object, 1-3 segment paths; plus blobs pre-seeded in the fake file system whose metadata names a legacy "
-    "codec reference (dbfs.string, dbfs.bytes, dbfs.pickle) fetched through DBFSStore. Oracles: files present under the "
+    "codec reference (dbfs.string, dbfs.bytes, dbfs.pickle) fetched through DBFSStore and then committed to a path under a seeded commit type. Oracles: files present under the "
     "data directory per commit type (byte-identical copy + redirect record / record only / nothing), returned values, "
     "load whenever the record exists, legacy blobs decode to the value their kind of codec wrote. Non-trivial: at least "
     "one path re-kept with a different value or a commit-type switch; distinct = abstract histories."
@@ -31,6 +31,7 @@ COMPONENTS = {
 ASSUMPTIONS = ["the fake implements the subset of dbutils.fs dds calls (head raises on a missing file, put(overwrite=True) replaces); "
                "fidelity to Databricks is trusted, not checked", "Spark codecs are not exercised"]
 PROBES = ["commit:full", "commit:links_only", "commit:none", "commit:default", "rekeep", "commit_type_switch", "legacy_blob",
+          "legacy_blob_committed:full", "legacy_blob_committed:links_only", "legacy_blob_committed:none",
           "load_checked", "files_checked"]
 SPELL = {"full": ["full", "FULL", "Full"], "links_only": ["links_only", "LINKS_ONLY", "Links_Only"],
          "none": ["none", "NONE", "None"], "default": [None]}
@@ -43,7 +44,8 @@ def gen_case(streams, tier, avoid):
     rng = streams.get("history")
     if cfg.random() < 0.2:
         return {"family": "legacy", "ref": cfg.choice(["dbfs.string", "dbfs.bytes", "dbfs.pickle"]),
-                "n": cfg.randint(0, 50)}
+                "n": cfg.randint(0, 50), "commit": cfg.choice(["full", "full", "links_only", "none"]),
+                "path": cfg.choice(PATHS)}
     ct = cfg.choice(["full", "full", "links_only", "links_only", "none", "default"])
     ops = [["config", ct, cfg.choice(SPELL[ct])]]
     n = cfg.randint(2, 12)
@@ -194,7 +196,9 @@ def _run_legacy(case, root):
     from ..storesim.fakedbutils import FakeDbutils
 
     fake = FakeDbutils(root)
-    store = DBFSStore(DBFSURI.parse("dbfs:/int"), DBFSURI.parse("dbfs:/data"), fake, CommitType.FULL)
+    ct = case.get("commit", "full")
+    store = DBFSStore(DBFSURI.parse("dbfs:/int"), DBFSURI.parse("dbfs:/data"), fake,
+                      {"full": CommitType.FULL, "links_only": CommitType.LINK_ONLY, "none": CommitType.NO_COMMIT}[ct])
     ref, n = case["ref"], case["n"]
     if ref == "dbfs.string":
         val = f"legacy-é-{n}"
@@ -220,8 +224,53 @@ def _run_legacy(case, root):
     if got != ["ok", canon(val)]:
         violations.append({"oracle": "C19.legacy", "tags": ["legacy:" + ref],
                            "detail": f"blob written by the legacy codec {ref} is read back as {str(got)[:160]} instead of {canon(val)[:80]}"})
-    return {"violations": violations, "log": [["legacy", ref, n, got]], "probes": {"legacy_blob": 1}, "faults": {},
-            "nontrivial": True, "key": "legacy:" + ref, "steps": 1}
+    # a path committed to the legacy blob (a result computed before the upgrade is kept again): the commit type is
+    # honoured for it like for any other blob
+    log = [["legacy", ref, n, got]]
+    probes = {"legacy_blob": 1}
+    if not violations and case.get("path"):
+        from collections import OrderedDict
+
+        path = case["path"]
+        rel = path.lstrip("/")
+        data = os.path.join(root, "dbfs", "data")
+        rec_p = os.path.join(data, "_dds_meta", rel)
+        obj_p = os.path.join(data, rel)
+        probes["legacy_blob_committed:" + ct] = 1
+        try:
+            store.sync_paths(OrderedDict([(path, key)]))
+            res = "ok"
+        except BaseException as e:  # noqa
+            res = f"{type(e).__name__}: {str(e)[:120]}"
+            violations.append({"oracle": "C19.legacy", "tags": ["legacy:" + ref, "commit:" + ct],
+                               "detail": f"committing {path} to a blob written by the legacy codec {ref} under {ct} raised {res}"})
+        log.append(["sync", path, ct, res])
+        if not violations:
+            if ct in ("full", "links_only") and not os.path.isfile(rec_p):
+                violations.append({"oracle": "C19.files", "tags": ["legacy:" + ref, "commit:" + ct],
+                                   "detail": f"legacy blob ({ref}) committed to {path} under {ct}: no redirect record at <data>/_dds_meta/{rel}"})
+            if ct == "full":
+                if not os.path.isfile(obj_p):
+                    violations.append({"oracle": "C19.files", "tags": ["legacy:" + ref, "commit:full"],
+                                       "detail": f"legacy blob ({ref}) committed to {path} under full: no copy at <data>/{rel}"})
+                elif open(obj_p, "rb").read() != raw:
+                    violations.append({"oracle": "C19.files", "tags": ["legacy:" + ref, "commit:full"],
+                                       "detail": f"legacy blob ({ref}) committed to {path} under full: the copy at <data>/{rel} is not byte-identical"})
+            if ct == "none" and (os.path.exists(rec_p) or os.path.exists(obj_p)):
+                violations.append({"oracle": "C19.files", "tags": ["legacy:" + ref, "commit:none"],
+                                   "detail": f"legacy blob ({ref}) committed to {path} under none: files were written under the data directory"})
+            if ct in ("full", "links_only") and not violations:
+                try:
+                    k2 = store.fetch_paths([path]).get(path)
+                    got2 = ["ok", canon(store.fetch_blob(k2))]
+                except BaseException as e:  # noqa
+                    got2 = ["exc", type(e).__name__, str(e)[:120]]
+                log.append(["load", path, got2])
+                if got2 != ["ok", canon(val)]:
+                    violations.append({"oracle": "C19.load", "tags": ["legacy:" + ref, "commit:" + ct],
+                                       "detail": f"legacy blob ({ref}) committed to {path} under {ct} is loaded as {str(got2)[:150]}"})
+    return {"violations": violations[:3], "log": log, "probes": probes, "faults": {},
+            "nontrivial": True, "key": f"legacy:{ref}:{ct}", "steps": 2}
 
 
 def shrink(case):
